@@ -61,18 +61,32 @@ def _tol(kappa, power=1):
 
 # --------------------------------------------------------------------------- strategies
 @st.composite
-def s_tmats(draw, hyp, n, shape, complex_=False):
+def s_tmats(draw, hyp, n, shape, complex_=False, plain=False):
     """dict(cols=[column matrices], comp=bool, col=bool): a unit transformation or a
     composite one of the given shape"""
     comp = bool(shape) and draw(st.integers(0, 3)) == 0
     cnt = gen.prod(shape) if comp else 1
     mats = []
+    # special matrices: an isometry typed in to 4 decimals (only approximately in O(n,1):
+    # its inverse is the matrix inverse, not the Minkowski adjoint), and a matrix within 1e-5
+    # of the identity that is not the identity (one step of a slow zoom)
+    special = "" if plain else \
+        draw(st.sampled_from(["", "", "", "", "", "rounded" if hyp else "near-identity",
+                              "near-identity" if not complex_ else ""]))
     for _ in range(cnt):
-        if hyp:
-            mats.append(draw(objs.s_isometry(n)))
+        if special == "near-identity":
+            d = [draw(st.sampled_from([5e-6, -5e-6, 2e-6, 8e-6])) for _ in range(n + 1)]
+            off = np.array(draw(gen.wellcond_matrix(n + 1, maxfactor=1.5)), dtype=float)
+            M = np.eye(n + 1) + np.diag(d) + 1e-9 * off / np.abs(off).max()
+            mats.append(M.tolist())
+        elif hyp:
+            M = np.array(draw(objs.s_isometry(n)), dtype=float)
+            if special == "rounded":
+                M = np.round(M, 4)
+            mats.append(M.tolist())
         else:
             mats.append(draw(objs.s_matrix(n + 1, complex_)))
-    return dict(cols=mats, comp=comp, col=draw(st.booleans()))
+    return dict(cols=mats, comp=comp, col=draw(st.booleans()), special=special)
 
 
 def tmat_arrays(t, shape):
@@ -166,6 +180,9 @@ def make_action_body(kind):
         if X.aux_data is not None:
             ctx.label("has-aux")
         _label_pair(ctx, Ac, Bc)
+        for t in (case["A"], case["B"]):
+            if t.get("special"):
+                ctx.label("special=" + t["special"])
         ctx.check(tuple(X.shape) == shape, "constructed composite shape", got=X.shape,
                   want=shape)
         tcls = H.Isometry if hyp else P.Transformation
@@ -264,6 +281,8 @@ def body_absolute(case, ctx):
     ctx.label("kind=" + kind, "n=%d" % n, "rank=%d" % len(shape), "field=" + spec["field"],
               "col=%s" % case["T"]["col"], "compT" if case["T"]["comp"] else "unitT")
     _label_pair(ctx, Tc, Tc)
+    if case["T"].get("special"):
+        ctx.label("special=" + case["T"]["special"])
     # the stored matrix is the row matrix, i.e. the transpose of the column matrix given
     ctx.check(np.array_equal(np.array(T.matrix), np.swapaxes(Tc, -1, -2)),
               "Transformation.matrix is the transposed column matrix",
@@ -310,8 +329,11 @@ def derived_case(draw):
     n = draw(s_dim(kind))
     shape = draw(gen.shapes(max_rank=2))
     cx = (not hyp) and draw(st.integers(0, 2)) == 0
+    # (exact isometries only: derived data of the hyperbolic classes - ideal endpoints,
+    # projected tangent vectors - is recomputed with the Minkowski form, which only an
+    # isometry preserves)
     return dict(obj=draw(objs.s_object(kind, n, shape, cx)),
-                T=draw(s_tmats(hyp, n, shape, cx)))
+                T=draw(s_tmats(hyp, n, shape, cx, plain=hyp)))
 
 
 def body_derived(case, ctx):
@@ -391,7 +413,11 @@ def rep_case(draw):
     return dict(hyp=hyp, n=n, gens=gens, cols=[draw(st.booleans()) for _ in range(ng)],
                 words=words, as_list=draw(st.booleans()),
                 obj=draw(objs.s_object(pkind, n, shape, cx and not hyp)),
-                mixed_cls=draw(st.booleans()), reassign=draw(st.booleans()))
+                mixed_cls=draw(st.booleans()), reassign=draw(st.booleans()),
+                capital=[draw(st.sampled_from([False, False, True])) for _ in range(ng)],
+                via_automaton=draw(st.one_of(st.none(), st.fixed_dictionaries(dict(
+                    mode=st.sampled_from(["", "start", "end", "end"]),
+                    state=st.sampled_from(list(range(8))), exact=st.booleans())))))
 
 
 def body_rep(case, ctx):
@@ -401,10 +427,15 @@ def body_rep(case, ctx):
     mats = [dec(g) for g in case["gens"]]
     names = GEN_NAMES[:len(mats)]
     rep = H.HyperbolicRepresentation() if hyp else P.ProjectiveRepresentation()
-    for nm, M, col in zip(names, mats, case["cols"]):
+    for gi, (nm, M, col) in enumerate(zip(names, mats, case["cols"])):
         # a ProjectiveRepresentation also accepts isometry objects as generators
         as_hyp = hyp
-        rep[nm] = objs.build_T(as_hyp, M, col)
+        if case.get("capital", [False] * 9)[gi]:
+            # the generator is given through its inverse letter: rep["A"] = M^-1
+            ctx.label("assigned-by-capital-letter")
+            rep[nm.upper()] = objs.build_T(as_hyp, np.linalg.inv(M), col)
+        else:
+            rep[nm] = objs.build_T(as_hyp, M, col)
     table = {}
     conds = {}
     for nm, M in zip(names, mats):
@@ -476,6 +507,32 @@ def body_rep(case, ctx):
                               np.array(EX.aux_data)[sa],
                               act_loop(ax, X.aux_ndims, Mw, shape), _tol(kw), j=j)
 
+
+    # the same images through the automaton route (free automaton on the generators, words
+    # up to length 3, every choice of start / end state): image[i] acts as the matrix of
+    # word[i] (which words come back is C06's business)
+    if case.get("via_automaton"):
+        from geometry_tools.automata import fsa
+        ctx.label("via-automaton")
+        fa = fsa.free_automaton("".join(names))
+        opt = case["via_automaton"]
+        state = (names + [g.upper() for g in names])[opt["state"] % (2 * len(names))]
+        kw = {"": {}, "start": {"start_state": state}, "end": {"end_state": state}}[opt["mode"]]
+        if opt["exact"]:
+            kw["maxlen"] = False
+        imgs, ws = rep.automaton_accepted(fa, 3, with_words=True, **kw)
+        ctx.check(tuple(imgs.shape) == (len(ws),), "one image per returned word",
+                  got=imgs.shape, words=len(ws))
+        IX = imgs.apply(X, "pairwise")
+        kmax = max(conds.values())
+        for j, w in enumerate(ws):
+            Mw = np.eye(n + 1, dtype=mats[0].dtype)
+            for g in w:
+                Mw = Mw @ table[g]
+            sl = (Ellipsis, j) + (slice(None),) * u
+            objs.compare_data(ctx, "automaton_accepted image [j] applied to X vs M_wj x", kind,
+                              np.array(IX.proj_data)[sl], act_loop(px, u, Mw, shape),
+                              _tol(kmax ** (len(w) + 1)), word=w, options=str(kw))
 
     # the images follow the generators: evaluate, re-assign the first generator (to the
     # matrix of the last one, or its inverse), evaluate again
